@@ -24,29 +24,30 @@ def _tier(tier):
                             ("Runner_evict_pre_cover.cfg", PRE_ROLES, 2, 360, 220, 100)],
                     random_runs=150)
     return dict(mc=["Runner_nopre.cfg", "Runner_pre.cfg"],
-                covers=[("Runner_nopre_cover.cfg", NOPRE_ROLES, 3, None, 0, 8000),
-                        ("Runner_pre_cover.cfg", PRE_ROLES, 2, 4000, 0, 3000),
-                        ("Runner_evict_cover.cfg", NOPRE_ROLES, 3, None, 0, 6000),
-                        ("Runner_evict_pre_cover.cfg", PRE_ROLES, 2, 5000, 3000, 3000)],
+                covers=[("Runner_nopre_cover.cfg", NOPRE_ROLES, 3, None, 0, 5000),
+                        ("Runner_pre_cover.cfg", PRE_ROLES, 2, 4000, 0, 2000),
+                        ("Runner_evict_cover.cfg", NOPRE_ROLES, 3, None, 0, 4000),
+                        ("Runner_evict_pre_cover.cfg", PRE_ROLES, 2, 5000, 3000, 2000)],
                 random_runs=4000)
 
 
 # (cfg, roles, removed / changed guard)
 ATTACKS = [
     ("Runner_attack_noheight.cfg", NOPRE_ROLES, "didDecideCorrectly without the height comparison"),
-    ("Runner_attack_noheight_pre.cfg", PRE_ROLES, "didDecideCorrectly without the height comparison (roles with a pre-consensus phase)"),
     ("Runner_attack_norevalidate.cfg", NOPRE_ROLES, "decided value not re-validated (validateDecidedConsensusData)"),
-    ("Runner_attack_norevalidate_pre.cfg", PRE_ROLES, "decided value not re-validated (roles with a pre-consensus phase)"),
     ("Runner_attack_everydecided.cfg", NOPRE_ROLES, "every decided message of the running height is reported (no prevDecided in controller and runner)"),
-    ("Runner_attack_everydecided_pre.cfg", PRE_ROLES, "every decided message of the running height is reported (roles with a pre-consensus phase)"),
-    ("Runner_attack_noroute.cfg", NOPRE_ROLES, "Validator.validateMessage does not compare the validator key of the message id"),
     ("Runner_attack_noroute_pre.cfg", PRE_ROLES, "validateMessage without the validator key comparison (roles with a pre-consensus phase)"),
     ("Runner_attack_prevfromcontainer.cfg", NOPRE_ROLES, "prevDecided read from the controller's 2-slot container instead of State.RunningInstance: "
      "decided, two future decided messages evict the instance, replay of the decided message"),
     ("Runner_attack_prevfromcontainer_pre.cfg", PRE_ROLES, "prevDecided read from the controller's container (roles with a pre-consensus phase)"),
 ]
-# removing the runner-side prevDecided alone yields no counterexample (the controller reports a decision once): checked in thorough only
+# thorough only: the other role family of each removed guard; removing the runner-side prevDecided alone yields no counterexample
+# (the controller reports a decision once)
 ATTACKS_THOROUGH = [
+    ("Runner_attack_noheight_pre.cfg", PRE_ROLES, "didDecideCorrectly without the height comparison (roles with a pre-consensus phase)"),
+    ("Runner_attack_norevalidate_pre.cfg", PRE_ROLES, "decided value not re-validated (roles with a pre-consensus phase)"),
+    ("Runner_attack_everydecided_pre.cfg", PRE_ROLES, "every decided message of the running height is reported (roles with a pre-consensus phase)"),
+    ("Runner_attack_noroute.cfg", NOPRE_ROLES, "Validator.validateMessage does not compare the validator key of the message id"),
     ("Runner_attack_noprev.cfg", NOPRE_ROLES, "runner-side prevDecided only (the controller's own check still holds: no counterexample expected)"),
     ("Runner_attack_noprev_pre.cfg", PRE_ROLES, "runner-side prevDecided only, roles with a pre-consensus phase (no counterexample expected)"),
 ]
